@@ -315,8 +315,23 @@ type ValErr struct{ Tag string }
 
 func (e ValErr) Error() string { return "valerr:" + e.Tag }
 
+// LibLikeErr is a user error whose message looks like one of the library's own wrapping frames
+// and which wraps a sentinel of its own: code that recognises "its" frames by their text must
+// not strip it.
+type LibLikeErr struct {
+	Prefix, Tag string
+	Inner       error
+}
+
+func (e *LibLikeErr) Error() string { return e.Prefix + e.Tag + ": " + e.Inner.Error() }
+func (e *LibLikeErr) Unwrap() error { return e.Inner }
+
 func mkErr(flavor int, tag string) error {
 	switch flavor {
+	case 14:
+		return &LibLikeErr{Prefix: "run: exec failed after 1 retries: ", Tag: tag, Inner: errors.New("inner:" + tag)}
+	case 15:
+		return &LibLikeErr{Prefix: "flow: exec failed: batch: ", Tag: tag, Inner: errors.New("inner:" + tag)}
 	case 2:
 		return fmt.Errorf("wrapped[%s]: %w", tag, errors.New("inner:"+tag))
 	case 3:
@@ -397,6 +412,9 @@ func errMatches(got, want error) string {
 	case SliceErr:
 		var s SliceErr
 		okAs = errors.As(got, &s)
+	case *LibLikeErr:
+		var p *LibLikeErr
+		okAs = errors.As(got, &p)
 	}
 	if !okAs {
 		return fmt.Sprintf("errors.As(%q) finds no value of type %T", got, want)
